@@ -50,6 +50,50 @@ example : (Blte.front ([66, 76, 84, 69, 0, 0, 0, 60, 15, 0, 0, 2] ++
     ([0, 0, 0, 7, 0, 0, 0, 6] ++ List.replicate 16 0) ++ ([0, 0, 0, 4, 0, 0, 0, 3] ++ List.replicate 16 0) ++
     [78, 1, 2, 3, 4, 5, 6, 78, 7, 8, 9])).allocs = [6, 3] := by decide
 
+/-! ### BLTE encrypted chunks: `decrypt_chunk_with_keys` header, with the key-store lookup -/
+
+/-- every index and slice of the encrypted-chunk header is in range, for every payload and every
+key store (`known` = which key names `TactKeyStore::get` finds): the 16-byte floor alone covers
+only the 4-byte IV, the per-field guards cover the 8-byte one. -/
+theorem blte_enc_no_panic (known : Nat → Bool) (d : Bytes) : Blte.encFront known d ≠ .panic :=
+  Proofs.ParseGuards.Blte.encFront_no_panic known d
+
+/-- the cipher is only reached on a complete header: key found, IV size 4 or 8, and the
+`11 + iv_size` header bytes present. -/
+theorem blte_enc_pass_complete (known : Nat → Bool) (d : Bytes) (h : Blte.encFront known d = .pass) :
+    known (leNat (slice d 1 8)) = true ∧ (byteAt d 9 = 4 ∨ byteAt d 9 = 8) ∧ 11 + byteAt d 9 ≤ d.length :=
+  Proofs.ParseGuards.Blte.encFront_pass known d h
+
+/-- COUNTER-WITNESS for the same code without the per-field guards (16-byte floor only): a 17-byte
+payload with `iv_size = 8` and a key name the store knows slices `data[10..18]` out of range. -/
+theorem blte_enc_floor_alone_panics :
+    Blte.encFrontG false (fun _ => true) ([8, 1, 2, 3, 4, 5, 6, 7, 8, 8] ++ List.replicate 7 17) = .panic := by
+  decide
+
+/-- … and no input shows it unless its key name is in the store: with no key found, the code
+without the per-field guards never panics. (Why the generators must name keys the store holds:
+reads behind a lookup are reached only when the lookup succeeds.) -/
+theorem blte_enc_unknown_key_hides_guards (g : Bool) (d : Bytes) :
+    Blte.encFrontG g (fun _ => false) d ≠ .panic :=
+  Proofs.ParseGuards.Blte.encFrontG_unknown_key_hides g d
+
+/-- `BlteFile::parse` + `decompress_with_keys(key_store)` with the encrypted chunks decoded: no
+panic for every input and key store; the allocations are those of `Blte.front`, so
+`blte_alloc_bounded` / `blte_capped_bounded` carry over. -/
+theorem blte_keys_no_panic (known : Nat → Bool) (b : Bytes) :
+    (Blte.frontKeys known b).verdict ≠ .panic ∧
+    (∀ a ∈ (Blte.frontKeys known b).allocs, a ≤ b.length) ∧
+    (∀ a ∈ (Blte.frontKeys known b).capped, a ≤ maxDecomp) := by
+  obtain ⟨h1, h2, h3⟩ := Proofs.ParseGuards.Blte.frontKeys_spec known b
+  exact ⟨h1, h2 ▸ blte_alloc_bounded b, h3 ▸ blte_capped_bounded b⟩
+
+/-- non-trivial instances: a complete header with an 8-byte IV passes (19 bytes), and one byte
+less is an error, not a panic. -/
+example : Blte.encFront (fun n => n == 0x0807060504030201)
+    ([8, 1, 2, 3, 4, 5, 6, 7, 8, 8] ++ List.replicate 8 17 ++ [0x53]) = .pass := by decide
+example : Blte.encFront (fun n => n == 0x0807060504030201)
+    ([8, 1, 2, 3, 4, 5, 6, 7, 8, 8] ++ List.replicate 8 17) = .err := by decide
+
 /-! ### Encoding file -/
 
 theorem encoding_no_panic (szIdx szPageC szPageE : Nat) (b : Bytes) :
